@@ -147,6 +147,27 @@ def judge(kind, m, l, a):
     return None
 
 
+def judge_reused(kind, m, a):
+    """the same through a decoder object that decoded another message before: equal in every field the header version
+    transports (a field the version does not carry keeps whatever the object held - that is not part of the message)"""
+    got = T.parse_tx_answer(a) if kind == "tx" else T.parse_rx_answer(a)
+    if got is None:
+        return "a valid message does not survive gen_msg/parse_msg: %s" % a
+    want = T.carried_tx(m) if kind == "tx" else T.carried_rx(m)
+    if kind == "tx":
+        fields = want.__slots__
+    elif m.ver == 0:
+        fields = ("ver", "fn", "tn", "rssi", "toa", "mod", "burst")
+    elif m.nope:
+        fields = ("ver", "fn", "tn", "rssi", "toa", "nope", "ci", "burst")
+    else:
+        fields = want.__slots__
+    diff = [f for f in fields if getattr(got, f) != getattr(want, f)]
+    if diff:
+        return "decoded message differs from the encoded one in %s" % ",".join(diff)
+    return None
+
+
 def rt_fails(kind, m, l, legacy_pair):
     if legacy_pair:
         a = vf.run_lines(T.HARNESS, ["trxd.%s.rt 0 %s" % (kind, m.line()), "trxd.%s.rt 1 %s" % (kind, m.line())])
@@ -205,15 +226,45 @@ def search(run, corr, deep):
             if la[2 * i] != la[2 * i + 1]:
                 fails.append((k, m, 1, la[2 * i + 1], "legacy padding changes the decoded message (without: %s)" % la[2 * i][:80]))
         corr.distribution["oracle: legacy pairs judged" + (" (deep)" if dp else "")] = len(v0)
+        # decoder re-use: a decoder object that decoded another message before still yields the encoded message
+        # (every field the version transports)
+        pool = {"tx": [(m, l) for k, m, l in msgs if k == "tx"], "rx": [(m, l) for k, m, l in msgs if k == "rx"]}
+        rreq, rmeta = [], []
+        for k in ("tx", "rx"):
+            if len(pool[k]) < 2:
+                continue
+            nob = [x for x in pool[k] if x[0].burst is None] or pool[k]
+            for _ in range(run.scale(1500, 20000)):
+                m1, l1 = run.rng.choice(pool[k])
+                m2, l2 = run.rng.choice(nob if run.rng.random() < 0.5 else pool[k])
+                rreq.append("trxd.%s.rt2 %d %s %d %s" % (k, l1, m1.line(), l2, m2.line()))
+                rmeta.append((k, m1, l1, m2, l2))
+        ra = vf.run_lines(T.HARNESS, rreq)
+        for (k, m1, l1, m2, l2), a in zip(rmeta, ra):
+            why = judge_reused(k, m2, a)
+            if why:
+                fails.append((k, m2, l2, a, why + " (decoder object re-used after: %s legacy=%d)" % (m1.line()[:120], l1), (m1, l1)))
+        corr.distribution["oracle: round trips through a re-used decoder object" + (" (deep)" if dp else "")] = len(rreq)
         if fails:
             break
     corr.distribution["oracle: violating round trips"] = len(fails)
     seen = set()
-    for k, m, l, a, why in fails:
-        sig = (k, m.ver, why, getattr(m, "mod", None) if (k == "rx" and m.ver == 1) else len(m.burst or b""))
+    for f in fails:
+        k, m, l, a, why = f[:5]
+        prev = f[5] if len(f) > 5 else None
+        sig = (k, m.ver, why.split(" (decoder object")[0], prev is not None,
+               getattr(m, "mod", None) if (k == "rx" and m.ver == 1) else len(m.burst or b""))
         if sig in seen or len(seen) >= 3:
             continue
         seen.add(sig)
+        if prev is not None:
+            want = T.carried_tx(m) if k == "tx" else T.carried_rx(m)
+            w = m.asdict()
+            w.update({"line": m.line(), "kind": "roundtrip-reused-decoder", "legacy": l, "what": why, "decoded": a,
+                      "expected": want.line(), "first_line": prev[0].line(), "first_legacy": prev[1],
+                      "failing_cases_in_this_run": len(fails)})
+            found += run.report_witness(w)
+            continue
         mm = shrink_burst(k, m, l, "legacy padding" in why)
         a2 = vf.run_lines(T.HARNESS, ["trxd.%s.rt %d %s" % (k, l, mm.line())])[0]
         w = mm.asdict()
@@ -234,8 +285,14 @@ def replay(run, path):
             continue
         kind = "tx" if w["class"] == "TxMsg" else "rx"
         l = w.get("legacy", 0)
-        a = vf.run_lines(T.HARNESS, ["trxd.%s.rt %d %s" % (kind, l, w["line"])])[0]
+        if w.get("kind") == "roundtrip-reused-decoder":
+            a = vf.run_lines(T.HARNESS, ["trxd.%s.rt2 %d %s %d %s" % (kind, w["first_legacy"], w["first_line"], l, w["line"])])[0]
+        else:
+            a = vf.run_lines(T.HARNESS, ["trxd.%s.rt %d %s" % (kind, l, w["line"])])[0]
         ok = a == "ok " + w["expected"]
+        if w.get("kind") == "roundtrip-reused-decoder":
+            mm = (T.parse_tx_answer if kind == "tx" else T.parse_rx_answer)("ok " + w["line"])
+            ok = judge_reused(kind, mm, a) is None
         print("replay %s legacy=%d: decoded=%s expected=%s -> %s" % (w["line"][:100], l, a[:100], w["expected"][:100],
                                                                      "property holds" if ok else "VIOLATED"))
         bad += not ok
